@@ -34,6 +34,8 @@ def snap(m):
 def length(m):
     if isinstance(m, MSeq):
         return m.length()
+    if isinstance(m, SByteArray):
+        return m.length()
     return len(m)
 
 
